@@ -341,6 +341,15 @@ func feScript(c *Ctx, h0 uint64) []feOp {
 				b = mk(0)
 			}
 		}
+		if c.R.Intn(8) == 0 && len(announcedHashes) > 0 {
+			// a block under an announced hash handed in directly by some peer (not necessarily the announcer), often invalid
+			id := announcedHashes[c.R.Intn(len(announcedHashes))]
+			if id < feCanonBase {
+				nb := &feBlk{id: id, height: height + 1, parent: feCanonBase + height, vOk: c.R.Intn(2) == 0, iOk: true}
+				ops = append(ops, feOp{kind: "enqueue", peer: peer(), blk: nb})
+				return
+			}
+		}
 		if c.R.Intn(5) == 0 && len(announcedHashes) > 0 {
 			// delivery through Filter of a block under an announced hash
 			id := announcedHashes[c.R.Intn(len(announcedHashes))]
